@@ -179,6 +179,69 @@ Proof.
   - apply (broadcast_fw_in_bounds sy sx dim n base Rt); auto.
 Qed.
 
+(* split: n slices of span tget sy dim each *)
+Definition split_ok (sx sy : tshape) (dim n : nat) : bool :=
+  (tget sx dim =? n * tget sy dim) && forallb (fun i => slice_ok sx sy dim (i * tget sy dim)) (seq 0 n).
+Lemma split_ok_pair sx sy dim n : split_ok sx sy dim n = true -> forall i, i < n ->
+  adjoint_pair (slice_fw sx sy dim (i * tget sy dim)) (slice_bw sy sx dim (i * tget sy dim)) (tsize sy) (tsize sx).
+Proof.
+  unfold split_ok. intros H i Hi. bsplit. apply slice_ok_pair.
+  match goal with H : forallb _ _ = true |- _ => rewrite forallb_forall in H; apply H end. apply in_seq. lia.
+Qed.
+Definition batch_split_ok (sx sy : tshape) (n : nat) : bool :=
+  (tbatch sx =? n * tbatch sy) && forallb (fun i => batch_slice_ok sx sy (i * tbatch sy)) (seq 0 n).
+Lemma batch_split_ok_pair sx sy n : batch_split_ok sx sy n = true -> forall i, i < n ->
+  adjoint_pair (batch_slice_fw sx sy (i * tbatch sy)) (batch_slice_bw sy sx (i * tbatch sy)) (tsize sy) (tsize sx).
+Proof.
+  unfold batch_split_ok. intros H i Hi. bsplit. apply batch_slice_ok_pair.
+  match goal with H : forallb _ _ = true |- _ => rewrite forallb_forall in H; apply H end. apply in_seq. lia.
+Qed.
+
+(* batch::sum: y = x.resize_batch(1); backward gx += gy with gy of batch 1 *)
+Definition batch_sum_ok (sx sy : tshape) : bool :=
+  (tvolume sy =? tvolume sx) && (tbatch sy =? 1) && (0 <? tbatch sx).
+Lemma batch_sum_ok_adj sx sy : batch_sum_ok sx sy = true ->
+  Permutation (inplace_add sy sx) (swap_acc (red_acc (batch_sum_red sx sy))) /\
+  acc_in_bounds (red_acc (batch_sum_red sx sy)) (tsize sy) (tsize sx).
+Proof.
+  unfold batch_sum_ok. intro H. bsplit.
+  set (V := tvolume sx) in *. set (bs := tbatch sx) in *.
+  assert (Hsy : tsize sy = V) by (unfold tsize; lia).
+  assert (Hsx : tsize sx = bs * V) by reflexivity.
+  assert (E1 : red_acc (batch_sum_red sx sy) = flat_map (fun i => map (fun b => (i, i + b * V)) (range bs)) (range V)).
+  { unfold red_acc, batch_sum_red. fold bs. rewrite Hsy, ProofsPerm.flat_map_map. cbn [fst snd].
+    apply flat_map_ext. intro i. rewrite map_map. reflexivity. }
+  assert (E2 : inplace_add sy sx = flat_map (fun b => flat_map (fun i => [(b * V + i, i)]) (range V)) (range bs)).
+  { rewrite (inplace_add_form sy sx V bs eq_refl) by (fold bs; lia). unfold flat_map2.
+    apply ProofsBilinear.flat_map_ext_in'. intros b Hb. apply in_seq in Hb. rewrite flat_map_single.
+    apply map_ext. intro i. rewrite (bsel_shared sy b) by assumption.
+    f_equal. f_equal. f_equal. destruct (bsel_cases sx b) as [[A B]|[[A B]|[A B]]]; fold bs in A; lia. }
+  split.
+  - rewrite E1, E2. unfold swap_acc. rewrite ProofsBilinear.map_flat_map.
+    rewrite (perm_flat_map_swap (fun b i => [(b * V + i, i)]) (range bs) (range V)).
+    apply Permutation_refl'. apply flat_map_ext. intro i. rewrite flat_map_single, map_map. cbn [fst snd].
+    apply map_ext. intro b. f_equal. lia.
+  - rewrite E1, Hsy, Hsx. apply Forall_forall. intros [d s] Hin. apply in_flat_map in Hin. destruct Hin as (i & Hi & Hin).
+    apply in_map_iff in Hin. destruct Hin as (b & E & Hb). injection E as <- <-. apply in_seq in Hi, Hb. cbn [fst snd].
+    split; [lia|]. assert ((b + 1) * V <= bs * V) by (apply Nat.mul_le_mono_r; lia). lia.
+Qed.
+
+(* conv2d: the relation conv2d_in_bounds needs between the three shapes *)
+Definition conv2d_ok (sx sw sy : tshape) : bool :=
+  let xh := tget sx 0 in let xw := tget sx 1 in let xc := tget sx 2 in
+  let wh := tget sw 0 in let ww := tget sw 1 in
+  let yh := tget sy 0 in let yw := tget sy 1 in let yc := tget sy 2 in let B := tbatch sy in
+  (tvolume sy =? yh * yw * yc) && (tvolume sx =? xh * xw * xc) && (tvolume sw =? wh * ww * xc * yc) &&
+  (0 <? wh) && (0 <? ww) && ((tbatch sx =? 1) || (tbatch sx =? B)) && ((tbatch sw =? 1) || (tbatch sw =? B)).
+Lemma conv2d_ok_bounds sx sw sy p0 p1 s0 s1 d0 d1 : conv2d_ok sx sw sy = true ->
+  Forall (fun e : nat * (nat * nat) => fst e < tsize sy /\ fst (snd e) < tsize sx /\ snd (snd e) < tsize sw)
+         (conv2d_triples sx sw sy p0 p1 s0 s1 d0 d1).
+Proof.
+  unfold conv2d_ok. intro H. bsplit.
+  eapply (conv2d_in_bounds sx sw sy _ _ _ _ _ _ _ _ (tbatch sy) _ _ _ p0 p1 s0 s1 d0 d1); try reflexivity; try eassumption;
+    apply orb_eqb; assumption.
+Qed.
+
 Section Family.
   Context {R : Type} (rO rI : R) (radd rmul rsub : R -> R -> R) (ropp : R -> R).
   Hypothesis Rth : ring_theory rO rI radd rmul rsub ropp eq.
@@ -224,7 +287,11 @@ Section Family.
   | OPermute (sx sy : tshape) (perm : list nat)
   | OReshape (sx sy : tshape)
   | OBatchSlice (sx sy : tshape) (off : nat)
-  | OBatchPick (sx sy : tshape) (ids : list nat).
+  | OBatchPick (sx sy : tshape) (ids : list nat)
+  | OBatchSum (sx sy : tshape)
+  | OSplit (sx sy : tshape) (dim n : nat)
+  | OBatchSplit (sx sy : tshape) (n : nat)
+  | OConv2d (sx sw sy : tshape) (p0 p1 s0 s1 d0 d1 : nat).
 
   Definition leaf_desc (s : tshape) (v : list R) (ok nop : bool) : opdesc :=
     {| d_args := []; d_rets := [s]; d_ok := ok; d_nop := nop;
@@ -274,6 +341,18 @@ Section Family.
     | OBatchPick sx sy ids =>
         unary_lin sx sy (batch_pick_ok sx sy ids) (gatherR (batch_pick_fw sx sy ids) (tsize sy))
           (fun gy => scatterR (batch_pick_bw sy sx ids) gy (zeros (tsize sx)))
+    | OBatchSum sx sy =>
+        unary_lin sx sy (batch_sum_ok sx sy)
+          (fun x => scatterR (red_acc (batch_sum_red sx sy)) x (zeros (tsize sy)))
+          (fun gy => scatterR (inplace_add sy sx) gy (zeros (tsize sx)))
+    | OSplit sx sy dim n =>
+        fan_desc rO radd sx sy n (split_ok sx sy dim n)
+          (fun i => slice_fw sx sy dim (i * tget sy dim)) (fun i => slice_bw sy sx dim (i * tget sy dim))
+    | OBatchSplit sx sy n =>
+        fan_desc rO radd sx sy n (batch_split_ok sx sy n)
+          (fun i => batch_slice_fw sx sy (i * tbatch sy)) (fun i => batch_slice_bw sy sx (i * tbatch sy))
+    | OConv2d sx sw sy p0 p1 s0 s1 d0 d1 =>
+        bil_desc rO radd rmul sx sw sy (conv2d_ok sx sw sy) (conv2d_triples sx sw sy p0 p1 s0 s1 d0 d1)
     end.
 
   Definition core_family : OpFamily cop tshape (@OpFamily.vec R) :=
@@ -337,6 +416,12 @@ Section Family.
       intros dx Hd. apply (gather_identity rO). exact Hd.
     - (* BatchSlice *) apply unary_lin_LA. intro H. apply pair_adj. apply batch_slice_ok_pair. exact H.
     - (* BatchPick *) apply unary_lin_LA. intro H. apply pair_adj. apply batch_pick_ok_pair. exact H.
+    - (* BatchSum *) apply unary_lin_LA. intro H. destruct (batch_sum_ok_adj sx sy H) as (Hp & Hb).
+      apply (acc_adj rO rI radd rmul rsub ropp Rth); [exact Hp|exact Hb|].
+      apply (Permutation_Forall (Permutation_sym Hp)). apply swap_acc_in_bounds. exact Hb.
+    - (* Split *) apply (fan_LA rO rI radd rmul rsub ropp Rth). intro H. apply split_ok_pair. exact H.
+    - (* BatchSplit *) apply (fan_LA rO rI radd rmul rsub ropp Rth). intro H. apply batch_split_ok_pair. exact H.
+    - (* Convolution2D *) apply (bil_LA rO rI radd rmul rsub ropp Rth). intro H. apply conv2d_ok_bounds. exact H.
   Qed.
 
   (* a descriptor's adjointness is LocalAdjoint of the family *)
